@@ -285,6 +285,24 @@ func (e *Engine) applyContract(s *State, f *Frame, x ssa.Instruction, callee *ss
 	}
 	site := e.callSiteName(f, x, key)
 	c := &evalCtx{e: e, s: s, env: env, pkg: callee.Pkg.Pkg}
+	// at_call clauses of the function under verification for this static site: the arguments are what the contract says
+	if f.contract != nil && probe == nil && f.contract.AtCall != nil {
+		if cls := f.contract.AtCall[site]; len(cls) > 0 {
+			if e.atCallHit == nil {
+				e.atCallHit = map[string]bool{}
+			}
+			e.atCallHit[funcKey(f.fn)+"|"+site] = true
+			ac := &evalCtx{e: e, s: s, env: copyEnv(f.params), names: f.names, oldHeap: f.entryHeap, oldEnv: f.params, pkg: f.fn.Pkg.Pkg, frame: f}
+			for i, p := range callee.Params {
+				if i < len(args) {
+					ac.env["arg_"+p.Name()] = args[i]
+				}
+			}
+			for j, cl := range cls {
+				e.emit(s, "at-call", fmt.Sprintf("%s.%d", site, j), ac.evalBool(cl.Expr), x.Pos(), "at_call "+site+" "+cl.Src)
+			}
+		}
+	}
 	acceptance := e.mode == COMPLETE && e.curC != nil && e.curC.Flags["acceptance-asserts"] && len(s.stack) == 1 && strings.HasPrefix(callee.Name(), "AssertIsEqual")
 	if acceptance {
 		// the function's own equality assertions are its acceptance condition: in COMPLETE mode they are the
@@ -640,6 +658,12 @@ func (e *Engine) verifyFunctionCase(fn *ssa.Function, ct *Contract, mode Mode, s
 	}
 	e.returnsSeen = 0
 	e.run(s, nil)
+	for siteKey := range ct.AtCall {
+		if !e.atCallHit[funcKey(fn)+"|"+siteKey] {
+			// the call site the clause speaks about is not reached on any path (deleted or renumbered)
+			e.obligs = append(e.obligs, &Oblig{Name: fmt.Sprintf("%s/%s/at-call@%s", funcKey(fn), mode, siteKey), Func: funcKey(fn), Mode: mode, Kind: "at-call", Hyps: nil, Goal: BoolC(false), Expect: "unsat", Props: ct.Props, Src: "call site " + siteKey + " is never reached"})
+		}
+	}
 	if e.returnsSeen == 0 && !ct.Flags["cover-each-case"] && !ct.Flags["never-returns"] {
 		// no path reached a return: every postcondition would hold vacuously
 		e.obligs = append(e.obligs, &Oblig{Name: fmt.Sprintf("%s/%s/cover@return", funcKey(fn), mode), Func: funcKey(fn), Mode: mode, Kind: "cover", Hyps: []*Term{BoolC(false)}, Goal: nil, Expect: "sat", Props: ct.Props, Src: "no path of the function reaches a return"})
